@@ -3,5 +3,5 @@
 cd "$(dirname "$0")/.."
 WT=/tmp/wt_matrix_$$
 git -C /repo worktree add -q --detach $WT HEAD || exit 1
-WT=$WT python3 tools/eval_mutant.py seeded --props all
+WT=$WT MATRIX_DIV=4 python3 tools/eval_mutant.py seeded --props all
 git -C /repo worktree remove --force $WT
